@@ -383,6 +383,12 @@ def hex_grid_rules(chk, repo, clause):
         c = p.calls('segmented.hex_to_xy')
         ok = len(c) == 1 and p.ret == Tup([-nf.index(c[0].result, C(1)), nf.index(c[0].result, C(0))]) and \
             c[0].bound.get('hex') == S('hex') and c[0].bound.get('radius') == S('radius') and c[0].bound.get('rotate') == S('rotate')
+        if not ok and not c and isinstance(p.ret, Tup) and len(p.ret) == 2:
+            # the cartesian map written out in place: (row, col) = (-y, x) of the same formulas
+            pol = [pl for cnd, pl, _ in p.conds if cnd == S('rotate')]
+            if len(pol) == 1:
+                xy = want[pol[0]]
+                ok = p.ret == Tup([-xy.items[1], xy.items[0]])
         chk.ob(clause, 'N-formula', f.key, '(row, col) = (-y, x)', ok, fmt(p.ret)[:160], f.loc(p.node))
     f, paths, _ = analyse(repo, 'segmented.hex_segments')
     ok_pitch = None
